@@ -12,7 +12,7 @@ PROPERTY = "C12"
 LEVEL = "fault_enumeration"
 CODE = ["yowsup/layers/__init__.py:YowLayer.toLower/toUpper, YowParallelLayer", "yowsup/layers/noise/layer.py:send/receive/_flush_incoming_buffer",
         "yowsup/layers/noise/layer_noise_segments.py:send", "yowsup/layers/coder/layer.py", "yowsup/layers/logger/layer.py", "yowsup/stacks/yowstack.py:getDefaultLayers"]
-BOUNDS = {"quick": "6 failure kinds (3 downward, 3 upward) x position 0..2 in a sequence of 3 operations x follow-up in {send, incoming frame}; oversize length symbolic in [2^24, 2^25]",
+BOUNDS = {"quick": "7 failure kinds (3 downward, 4 upward) x position 0..2 in a sequence of 3 operations x follow-up in {send, incoming frame}; oversize length symbolic in [2^24, 2^25]",
           "thorough": "same with sequences of 4 operations and both follow-ups after every failure"}
 OUTSIDE = ["blocking behaviour of real OS threads (locks are replaced by recording non-blocking locks: a lock still held after the failure is what would block any later thread forever)",
            "the real Noise transport (stubbed: encrypt = tag + data), reconnects (C16)"]
@@ -67,7 +67,10 @@ class NoiseStub(object):
         self.layer.toLower(SC_cat(b"\x45", data))
 
     def receive(self):
-        return self.layer._incoming_segments_queue.get(False)
+        f = self.layer._incoming_segments_queue.get(False)
+        if bytes(f).startswith(b"CORRUPT"):
+            raise ValueError("decrypt failed (authentication tag mismatch)")
+        return f
 
     def reset(self):
         pass
@@ -112,20 +115,37 @@ def build():
                 raise RuntimeError("application callback raised")
             self.up.append(e)
 
+    # every Lock() created inside yowsup.layers (at construction or lazily, whenever) is a recording lock: locks are intercepted
+    # where they are CREATED, never replaced afterwards
+    import yowsup.layers as LM
+    import yowsup.layers.noise.layer as NM
+    locks = {}
+
+    class FakeThreading(object):
+        def Lock(self_):
+            l = RecLock("lock#%d" % (len(locks) + 1))
+            locks[l.name] = l
+            return l
+
+        def __getattr__(self_, n):
+            return getattr(threading, n)
+    LM.threading = FakeThreading()
+    NM.threading = LM.threading
     layers = YowStackBuilder.getDefaultLayers() + (App,)
     st = YowStack(layers, reversed=False)
     n = len(layers)
     insts = [st.getLayer(i) for i in range(n)]
-    locks = {}
     for i, l in enumerate(insts):
-        l.lock = locks["%d:%s" % (i, type(l).__name__)] = RecLock("%d:%s" % (i, type(l).__name__))
+        if isinstance(getattr(l, "lock", None), RecLock):
+            l.lock.name = "%d:%s" % (i, type(l).__name__)
     net, seg, noise = insts[0], insts[1], insts[2]
     disp = Dispatcher()
     net._dispatcher = disp
     net.connected = True
     net.state = net.STATE_CONNECTED
     noise._wa_noiseprotocol = NoiseStub(noise)
-    noise._flush_lock = locks["noise._flush_lock"] = RecLock("noise._flush_lock")
+    if isinstance(getattr(noise, "_flush_lock", None), RecLock):
+        noise._flush_lock.name = "noise._flush_lock"
     st.setProp(YowNoiseSegmentsLayer.PROP_ENABLED, True)
     st.setProp(YowIqProtocolLayer.PROP_PING_INTERVAL, 0)
     st.setProp("profile", ST.StubProfile())
@@ -157,7 +177,7 @@ def _seg(frame):
 
 
 DOWN_FAULTS = ("unencodable-value", "oversize-frame", "no-transport-session")
-UP_FAULTS = ("undecodable-frame", "rejected-stanza", "application-callback-raises")
+UP_FAULTS = ("undecryptable-frame", "undecodable-frame", "rejected-stanza", "application-callback-raises")
 
 
 def _do_send_ok(top, disp):
@@ -190,6 +210,8 @@ def _inject_fault(ctx, kind, st, insts, disp, net, noise, top):
                 top.toLower(_good_entity())
             finally:
                 noise._wa_noiseprotocol.ready = True
+        elif kind == "undecryptable-frame":
+            net.receive(_seg(b"CORRUPT ciphertext whose tag does not verify"))
         elif kind == "undecodable-frame":
             net.receive(_seg(b"\x00\xf8\x02\xff\xff\xff"))
         elif kind == "rejected-stanza":
@@ -216,7 +238,7 @@ def h_fault(ctx, kind, n_ops):
             except WouldBlock as e:
                 return obs + [("no-operation-blocks (%s)" % e, False)]
             obs.append(("error-reported-to-caller", err is not None))
-            held = sorted(k for k, l in locks.items() if l.held)
+            held = sorted(l.name for l in locks.values() if l.held)
             obs.append(("no-lock-held-after-failure (held: %s)" % held, not held))
         else:
             try:
